@@ -104,6 +104,25 @@ theorem runOpt_brute_all (obj : List ℚ → ℚ × Option (List ℚ)) (s : Opti
   have := runOpt_brute obj s lo up pts []
   simpa using this
 
+/-- what the enumeration answers: a grid point with its own value, no grid point has a smaller value, every EARLIER grid point has a
+    strictly larger one -/
+theorem brute_spec (obj : List ℚ → ℚ × Option (List ℚ)) (pts : List (List ℚ)) (hne : pts ≠ []) :
+    ∃ q ∈ pts, bruteAnswer (pts.map fun x => (x, (obj x).1)) = some (q, (obj q).1) ∧
+      (∀ q' ∈ pts, (obj q).1 ≤ (obj q').1) ∧
+      ∃ pre post, pts = pre ++ q :: post ∧ ∀ q' ∈ pre, (obj q).1 < (obj q').1 := by
+  have hne' : (pts.map fun x => (x, (obj x).1)) ≠ [] := by simpa using hne
+  obtain ⟨xf, hxf⟩ := argminFirst_isSome _ hne'
+  obtain ⟨hle, pre, post, hsplit, hpre⟩ := argminFirst_spec _ xf hxf
+  obtain ⟨l₁, l₂, hpts, h1, h2⟩ := List.map_eq_append_iff.mp hsplit
+  obtain ⟨q, l₃, hl2, hq, h3⟩ := List.map_eq_cons_iff.mp h2
+  subst hq
+  refine ⟨q, by rw [hpts, hl2]; simp, by simp [bruteAnswer, hxf], ?_, l₁, l₃, by rw [hpts, hl2], ?_⟩
+  · intro q' hq'
+    exact hle (q', (obj q').1) (List.mem_map.mpr ⟨q', hq', rfl⟩)
+  · intro q' hq'
+    have : (q', (obj q').1) ∈ pre := by rw [← h1]; exact List.mem_map.mpr ⟨q', hq', rfl⟩
+    exact hpre _ this
+
 /-! ## the grid -/
 
 theorem mem_gridProduct : ∀ (axes : List (List ℚ)) (q : List ℚ),
@@ -187,6 +206,23 @@ theorem axis_inRange (sl : GridSlice) (hwf : sl.WF) : ∀ x ∈ sl.axis, sl.InRa
       · linarith
     · simp [hs] at hi
 
+theorem forall₂_inRange : ∀ (sl : List GridSlice) (q : List ℚ), (∀ s ∈ sl, s.WF) →
+    List.Forall₂ (fun x ax => x ∈ ax) q (sl.map GridSlice.axis) → List.Forall₂ (fun x s => GridSlice.InRange s x) q sl := by
+  intro sl
+  induction sl with
+  | nil => intro q _ h; simp only [List.map_nil] at h; cases h; exact List.Forall₂.nil
+  | cons s rest ih =>
+    intro q hwf h
+    simp only [List.map_cons] at h
+    cases h with
+    | cons hx hr =>
+      exact List.Forall₂.cons (axis_inRange s (hwf s (by simp)) _ hx) (ih _ (fun t ht => hwf t (by simp [ht])) hr)
+
+/-- every point of the grid has one coordinate per slice, each in the range of its slice -/
+theorem gridPoints_inRange (sl : List GridSlice) (hwf : ∀ s ∈ sl, s.WF) (q : List ℚ) (hq : q ∈ gridPoints sl) :
+    List.Forall₂ (fun x s => GridSlice.InRange s x) q sl :=
+  forall₂_inRange sl q hwf ((mem_gridProduct _ q).mp hq)
+
 /-! ## a grid row evaluates every query, at the folded-in point -/
 
 theorem wrapperObjective_grid (w : Wrapper) (hg : w.gridOk = true) (expF logF : ℚ → ℚ) (pb : Problem) (m : ModelFn) (x : List ℚ) :
@@ -197,6 +233,31 @@ theorem wrapperObjective_grid (w : Wrapper) (hg : w.gridOk = true) (expF logF : 
   rw [objectFunc_inside]
   · simp
   · constructor <;> intro bs hbs <;> simp at hbs
+
+theorem down_length (fixed : Fixed) : ∀ (full : List ℚ), full.length = fixed.length → (projectDown full fixed).length = nFree fixed := by
+  induction fixed with
+  | nil => intro full h; cases full <;> simp_all [projectDown, nFree]
+  | cons f fs ih =>
+    intro full h
+    cases full with
+    | nil => simp at h
+    | cons p ps =>
+      have h' : ps.length = fs.length := by simpa using h
+      cases f with
+      | some v => simpa [projectDown, downKeeps, nFree] using ih ps h'
+      | none => simpa [projectDown, downKeeps, nFree] using ih ps h'
+
+/-! ## `numpy.clip` -/
+
+theorem clipEntry_box (x l u y : ℚ) (hlu : l ≤ u) (h : clipEntry x (.val l) (.val u) = some y) : l ≤ y ∧ y ≤ u := by
+  simp only [clipEntry, Option.bind_some, Option.some.injEq] at h
+  subst h
+  simp only [ratMax, ratMin]
+  split_ifs <;> constructor <;> linarith
+
+theorem clipEntry_inside (x l u : ℚ) (h1 : l ≤ x) (h2 : x ≤ u) : clipEntry x (.val l) (.val u) = some x := by
+  simp only [clipEntry, Option.bind_some, ratMax, ratMin]
+  split_ifs <;> first | rfl | (congr 1; linarith)
 
 /-! ## `perturb_params`, the whole list -/
 
